@@ -25,6 +25,12 @@ func TestDebugCase(t *testing.T) {
 	run, f := Execute(&h, st)
 	defer run.Cleanup()
 	if f != nil {
+		if d := os.Getenv("VERIF_DEBUG_DUMP"); d != "" {
+			b1, _ := os.ReadFile(run.Name + ".db")
+			b2, _ := os.ReadFile(run.Name + ".log")
+			os.WriteFile(d+".db", b1, 0o644)
+			os.WriteFile(d+".log", b2, 0o644)
+		}
 		t.Fatal(f)
 	}
 	for i, e := range run.Rec.Events {
